@@ -391,19 +391,29 @@ def edge_cover_paths(g, max_len=200, skip_self_loops=True):
 
 # --------------------------------------------------------------------------- simulate traces
 def load_sim_traces(dirpath, prefix="tr"):
-    """Files written by `-simulate file=<dir>/tr,num=N`: one behaviour per file."""
+    """Files written by `-simulate file=<dir>/tr,num=N`: one behaviour per file -> list of [(label, state), ...]"""
     out = []
     for fn in sorted(os.listdir(dirpath)):
-        if not fn.startswith(prefix):
+        if not fn.startswith(prefix) or os.path.isdir(os.path.join(dirpath, fn)):
             continue
         txt = open(os.path.join(dirpath, fn)).read()
         beh = []
-        # STATE_n == \n /\ ...   preceded by \* <Action ...> comments
-        for m in re.finditer(r"(?:\\\* <?([^>\n]*)>?.*\n)?STATE_(\d+) ==\s*\n(.*?)(?=\n\s*\n|\Z)", txt, re.S):
-            label = (m.group(1) or "").split(" line ")[0].strip()
-            beh.append((label, parse_state(m.group(3))))
+        for m in re.finditer(r"\\\* <([^\n]*?) line \d+[^\n]*>\s*\nSTATE_(\d+) ==\s*\n(.*?)(?=\n\s*\n|\Z)", txt, re.S):
+            beh.append((m.group(1).strip(), parse_state(m.group(3))))
         out.append(beh)
     return out
+
+
+def simulate_behaviours(module, cfg, num, depth, seed, name="sim", timeout=900, cwd=SPEC, jvm_props=()):
+    """run `tlc -simulate` and return the behaviours it generated (and the TLCResult)"""
+    d = os.path.join(OUT, "sim", "%s.%d.%s" % (name, os.getpid(), uuid.uuid4().hex[:8]))
+    os.makedirs(d)
+    try:
+        res = run_tlc(module, cfg, workers=1, simulate="file=%s/tr,num=%d" % (d, num), depth=depth, seed=seed,
+                      timeout=timeout, cwd=cwd, jvm_props=jvm_props)
+        return load_sim_traces(d), res
+    finally:
+        shutil.rmtree(d, ignore_errors=True)
 
 
 def sany(module, cwd=SPEC):
